@@ -57,6 +57,9 @@ def run(repo, rep, tier):
     r5 = rep.rule('C19.R5', 'recorders are optional')
     r6 = rep.rule('C19.R6', 'the password does not flow to observers')
     statistics_reentry_rule(repo, rep)
+    staged_args_rule(repo, rep)
+    from .c02 import operation_envelopes_agree
+    operation_envelopes_agree(repo, rep, 'C19.R10', 'finally')
     ops = operations(repo)
     conn = repo.cls(OPS, 'WBEMConnection')
 
@@ -684,3 +687,45 @@ def statistics_reentry_rule(repo, rep):
                             'with stats_enabled=True only, so enabling '
                             'statistics changes the outcome of the call'
                             % ((tpl or '').rstrip('\0'), norm(c, 60)))
+
+
+def staged_args_rule(repo, rep):
+    """C19.R11: the call handed to the recorders is the call that was made:
+    operation_recorder_stage_pywbem_args() receives every parameter of the
+    operation under its own name (plus method=).  A parameter that is left
+    out, or staged under another name / with another variable, makes the
+    recorded operation (log line, test-client YAML) differ from the real
+    one."""
+    r11 = rep.rule('C19.R11', 'every parameter of an operation is staged for '
+                   'the recorders under its own name')
+    for op in operations(repo):
+        f = op.func
+        ps = [p for p in f.params if p != 'self']
+        calls = [c for c in walk_no_nested(f.node) if isinstance(c, ast.Call)
+                 and (dotted(c.func) or '').endswith(
+                     'operation_recorder_stage_pywbem_args')]
+        r11.sites += 1
+        r11.functions.add(f.fq)
+        if len(calls) != 1:
+            r11.ob(False, f.name)
+            rep.finding(r11, f.qualname, 'operation_recorder_stage_pywbem_'
+                        'args', 'stage-count', OPS, f.node.lineno,
+                        '%d staging calls (expected 1)' % len(calls))
+            continue
+        c = calls[0]
+        star = [norm(k.value) for k in c.keywords if k.arg is None]
+        kws = {k.arg: norm(k.value) for k in c.keywords if k.arg}
+        missing = [p for p in ps if p not in kws and p not in star]
+        wrong = ['%s=%s' % (k, v) for k, v in kws.items()
+                 if k != 'method' and v != k]
+        ok = not missing and not wrong and 'method' in kws
+        r11.ob(ok, f.name, {'staged': sorted(kws), 'star': star})
+        if not ok:
+            rep.finding(r11, f.qualname, norm(c, 60), 'staged-args', OPS,
+                        c.lineno,
+                        'the recorders are not given the call as it was '
+                        'made: missing %s, passed under another name / '
+                        'value %s' % (missing or 'nothing', wrong or
+                                      'nothing'))
+    if r11.sites < 30:
+        raise AnalysisError('C19.R11: only %d operations' % r11.sites)
